@@ -51,8 +51,16 @@ type BN struct {
 	Calls   []string
 	vals    map[eth2p0.ValidatorIndex]eth2p0.BLSPubKey
 	duties  *DutyTables
-	fail    map[string]int
-	latency time.Duration
+	infos   map[eth2p0.ValidatorIndex]ValInfo
+	Records []CallRecord
+	// LeakForeign makes duty answers include validators that were not asked for (a beacon node
+	// that ignores the index filter)
+	LeakForeign bool
+	proCache    func(context.Context, eth2p0.Epoch, []eth2p0.ValidatorIndex) (eth2wrap.ProposerDutyWithMeta, error)
+	attCache    func(context.Context, eth2p0.Epoch, []eth2p0.ValidatorIndex) (eth2wrap.AttesterDutyWithMeta, error)
+	syncCache   func(context.Context, eth2p0.Epoch, []eth2p0.ValidatorIndex) (eth2wrap.SyncDutyWithMeta, error)
+	fail        map[string]int
+	latency     time.Duration
 }
 
 // New returns a fake node whose fork epochs are spread over the whole epoch range, so that
@@ -255,12 +263,17 @@ func want(indices []eth2p0.ValidatorIndex) func(eth2p0.ValidatorIndex) bool {
 
 func (b *BN) AttesterDuties(_ context.Context, opts *eth2api.AttesterDutiesOpts) (*eth2api.Response[[]*eth2v1.AttesterDuty], error) {
 	if err := b.enter("attester"); err != nil {
+		b.record("attester", opts.Epoch, false)
 		return nil, err
 	}
+	b.record("attester", opts.Epoch, true)
 	b.mu.Lock()
 	defer b.mu.Unlock()
 	var out []*eth2v1.AttesterDuty
 	w := want(opts.Indices)
+	if b.LeakForeign {
+		w = want(nil)
+	}
 	var keys []eth2p0.ValidatorIndex
 	for k := range b.duties.Att[opts.Epoch] {
 		keys = append(keys, k)
@@ -277,12 +290,17 @@ func (b *BN) AttesterDuties(_ context.Context, opts *eth2api.AttesterDutiesOpts)
 
 func (b *BN) ProposerDuties(_ context.Context, opts *eth2api.ProposerDutiesOpts) (*eth2api.Response[[]*eth2v1.ProposerDuty], error) {
 	if err := b.enter("proposer"); err != nil {
+		b.record("proposer", opts.Epoch, false)
 		return nil, err
 	}
+	b.record("proposer", opts.Epoch, true)
 	b.mu.Lock()
 	defer b.mu.Unlock()
 	var out []*eth2v1.ProposerDuty
 	w := want(opts.Indices)
+	if b.LeakForeign {
+		w = want(nil)
+	}
 	for _, d := range b.duties.Pro[opts.Epoch] {
 		if w(d.ValidatorIndex) {
 			c := d
@@ -294,8 +312,10 @@ func (b *BN) ProposerDuties(_ context.Context, opts *eth2api.ProposerDutiesOpts)
 
 func (b *BN) SyncCommitteeDuties(_ context.Context, opts *eth2api.SyncCommitteeDutiesOpts) (*eth2api.Response[[]*eth2v1.SyncCommitteeDuty], error) {
 	if err := b.enter("sync"); err != nil {
+		b.record("sync", opts.Epoch, false)
 		return nil, err
 	}
+	b.record("sync", opts.Epoch, true)
 	b.mu.Lock()
 	defer b.mu.Unlock()
 	var out []*eth2v1.SyncCommitteeDuty
@@ -313,4 +333,89 @@ func (b *BN) SyncCommitteeDuties(_ context.Context, opts *eth2api.SyncCommitteeD
 		}
 	}
 	return &eth2api.Response[[]*eth2v1.SyncCommitteeDuty]{Data: out, Metadata: map[string]any{"epoch": uint64(opts.Epoch)}}, nil
+}
+
+// ---- scheduler support (C15)
+
+// ValInfo scripts one validator's life cycle.
+type ValInfo struct {
+	PubKey          eth2p0.BLSPubKey
+	ActivationEpoch eth2p0.Epoch
+	ExitEpoch       eth2p0.Epoch // first epoch in which it is no longer active
+}
+
+// CallRecord is one duty-resolution call with its outcome.
+type CallRecord struct {
+	Endpoint string
+	Epoch    eth2p0.Epoch
+	At       time.Time
+	OK       bool
+}
+
+func (b *BN) SetValInfos(v map[eth2p0.ValidatorIndex]ValInfo) {
+	b.mu.Lock()
+	b.infos = v
+	b.mu.Unlock()
+}
+
+func (b *BN) epochNow() eth2p0.Epoch {
+	if time.Now().Before(b.GenesisTime) {
+		return 0
+	}
+	return eth2p0.Epoch(uint64(time.Since(b.GenesisTime)/b.SlotDur) / b.SPE)
+}
+
+func (b *BN) NodeSyncing(context.Context, *eth2api.NodeSyncingOpts) (*eth2api.Response[*eth2v1.SyncState], error) {
+	return &eth2api.Response[*eth2v1.SyncState]{Data: &eth2v1.SyncState{IsSyncing: false}}, nil
+}
+
+// CompleteValidators reports every cluster validator with the status it has at the current (virtual) time.
+func (b *BN) CompleteValidators(context.Context) (eth2wrap.CompleteValidators, error) {
+	if err := b.enter("validators"); err != nil {
+		b.record("validators", 0, false)
+		return nil, err
+	}
+	b.record("validators", 0, true)
+	now := b.epochNow()
+	b.mu.Lock()
+	defer b.mu.Unlock()
+	out := eth2wrap.CompleteValidators{}
+	for idx, info := range b.infos {
+		st := eth2v1.ValidatorStateActiveOngoing
+		switch {
+		case now < info.ActivationEpoch:
+			st = eth2v1.ValidatorStatePendingQueued
+		case now >= info.ExitEpoch:
+			st = eth2v1.ValidatorStateExitedUnslashed
+		}
+		out[idx] = &eth2v1.Validator{Index: idx, Balance: 32000000000, Status: st, Validator: &eth2p0.Validator{PublicKey: info.PubKey, ActivationEpoch: info.ActivationEpoch, ExitEpoch: info.ExitEpoch, EffectiveBalance: 32000000000, WithdrawalCredentials: make([]byte, 32)}}
+	}
+	return out, nil
+}
+
+func (b *BN) record(endpoint string, epoch eth2p0.Epoch, ok bool) {
+	b.mu.Lock()
+	b.Records = append(b.Records, CallRecord{endpoint, epoch, time.Now(), ok})
+	b.mu.Unlock()
+}
+
+// SetDutiesCache / *DutiesCache mirror the production client wrappers: the scheduler asks the
+// client, the client asks the registered (real) DutiesCache.
+func (b *BN) SetDutiesCache(p func(context.Context, eth2p0.Epoch, []eth2p0.ValidatorIndex) (eth2wrap.ProposerDutyWithMeta, error),
+	a func(context.Context, eth2p0.Epoch, []eth2p0.ValidatorIndex) (eth2wrap.AttesterDutyWithMeta, error),
+	s func(context.Context, eth2p0.Epoch, []eth2p0.ValidatorIndex) (eth2wrap.SyncDutyWithMeta, error)) {
+	b.proCache, b.attCache, b.syncCache = p, a, s
+}
+
+func (b *BN) ProposerDutiesCache(ctx context.Context, e eth2p0.Epoch, idx []eth2p0.ValidatorIndex) (eth2wrap.ProposerDutyWithMeta, error) {
+	r, err := b.proCache(ctx, e, idx)
+	return r, err
+}
+
+func (b *BN) AttesterDutiesCache(ctx context.Context, e eth2p0.Epoch, idx []eth2p0.ValidatorIndex) (eth2wrap.AttesterDutyWithMeta, error) {
+	return b.attCache(ctx, e, idx)
+}
+
+func (b *BN) SyncCommDutiesCache(ctx context.Context, e eth2p0.Epoch, idx []eth2p0.ValidatorIndex) (eth2wrap.SyncDutyWithMeta, error) {
+	return b.syncCache(ctx, e, idx)
 }
